@@ -681,12 +681,22 @@ def orthoForm (c11 c22 c33 c12 c13 c23 c44 c55 c66 : K) : List K :=
    0, 0, 0, 0, c55, 0,
    0, 0, 0, 0, 0, c66]
 
+/-- `ElasticConstants.monoclinic(…)` (thirteen constants: the nine orthorhombic ones and `C15`, `C25`, `C35`, `C46`). -/
+def monoForm (c11 c12 c13 c15 c22 c23 c25 c33 c35 c44 c46 c55 c66 : K) : List K :=
+  [c11, c12, c13, 0, c15, 0,
+   c12, c22, c23, 0, c25, 0,
+   c13, c23, c33, 0, c35, 0,
+   0, 0, 0, c44, 0, c46,
+   c15, c25, c35, 0, c55, 0,
+   0, 0, 0, c46, 0, c66]
+
 set_option linter.unusedVariables false in
 /-- the array handed to the `Cij` setter by `normalized_as(cs)`: the named constants are averaged from the
     36 entries `aij` of `self.Cij` and passed to the crystal-system constructor (`ElasticConstants(**c_dict)`
     dispatches on the number of keywords and on `C14`).  `muK` are `self.shear()`, `self.bulk()` (Hill
-    estimates: they need the inverse 6×6 array, property C11), `none` when they raise.  An unknown crystal
-    system (`'monoclinic'` included) is a `ValueError`. -/
+    estimates: they need the inverse 6×6 array, property C11), `none` when they raise.  `'monoclinic'` (repo fix
+    877d779) keeps the thirteen constants of the upper triangle and zeroes the rest, like `'orthorhombic'`.  An
+    unknown crystal system is a `ValueError`. -/
 def normForm (muK : Option (K × K)) (cs : String) (c : List K) : Option (List K) :=
   match c with
   | a00 :: a01 :: a02 :: a03 :: a04 :: a05
@@ -713,6 +723,8 @@ def normForm (muK : Option (K × K)) (cs : String) (c : List K) : Option (List K
         ((a03 - a13) / two) ((a04 - a14 - a35) / three) ((a33 + a44) / two))
     else if cs = "orthorhombic" then
       some (orthoForm a00 a11 a22 a01 a02 a12 a33 a44 a55)
+    else if cs = "monoclinic" then
+      some (monoForm a00 a01 a02 a04 a11 a12 a14 a22 a24 a33 a35 a44 a55)
     else none
   | _ => none
 
